@@ -424,11 +424,18 @@ pub fn emu_stepping(o: &Opts) -> Emu {
 pub const FOREVER: Duration = Duration::from_secs(1_000_000);
 
 /// One `Z80::emulate` through the public API (needs the break-always debug interface).
+thread_local! {
+    /// number of `step` calls on this thread that did not end at the break-always interface
+    /// (the emulator advanced time without completing an instruction through `Z80::emulate`)
+    pub static STEP_ANOMALIES: std::cell::Cell<u64> = const { std::cell::Cell::new(0) };
+}
+
 pub fn step(e: &mut Emu) {
     match e.emulate_frames(FOREVER) {
         Ok(info) => {
             if info.stop_reason != EmulationStopReason::Breakpoint {
-                panic!("rig::step: emulate_frames did not stop at the break-always interface");
+                // not a machinery error: lock-step comparisons after this call judge what happened
+                STEP_ANOMALIES.with(|c| c.set(c.get() + 1));
             }
         }
         Err(err) => panic!("rig::step: emulation error {:?}", err),
